@@ -297,6 +297,24 @@ func RawBytes(r *h.Rand, maxAtoms int) string {
 var Precisions = []string{"ns", "ns", "ns", "n", "u", "us", "ms", "s", "m", "h", "x"}
 var DefTimes = []int64{1600000000123456789, 0, -1, -1600000000123456789, 999, 3599999999999, 9223372036854775806, -9223368436854775806}
 
+// KeyBoundaryLines: the minimal shape on which only the per-field check
+// len(key)+4+len(fieldKey) > MaxKeyLength decides: ONE field with a one-character value, no
+// timestamp, nothing after it (so the line itself is at most MaxKeyLength bytes long when the
+// composite key is MaxKeyLength+1).  Field-key length L, key lengths MaxKeyLength-4-L-2 … +2;
+// measurement only, sorted tags, unsorted tags (the key is rebuilt).
+func KeyBoundaryLines(L int) []string {
+	const max = 65535
+	fk := strings.Repeat("f", L)
+	var out []string
+	for d := -2; d <= 2; d++ {
+		k := max - 4 - L + d
+		out = append(out, strings.Repeat("a", k)+" "+fk+"=1")
+		out = append(out, "m,k="+strings.Repeat("v", k-4)+" "+fk+"=1")
+		out = append(out, "m,z=1,k="+strings.Repeat("v", k-8)+" "+fk+"=1")
+	}
+	return out
+}
+
 // LongKeyLines: lines around MaxKeyLength (65535).
 func LongKeyLines(r *h.Rand) string {
 	switch r.Intn(6) {
